@@ -11,9 +11,11 @@ What is mirrored, function by function
 * `handleCommit`                 = `commandHandleCommitCommand` and `ArbiterMember.DoSelfCommit`.
 * `choose`                       = the selection loop of `ArbiterVoter.DoVote`.
 * `beginProposal` / `finishProposal` / `finishCommit` = `ArbiterVoter.DoProposal` / `DoCommit`
-                                   (number = max(proposalIndex, commitId, proposalId) + 1; majority = `len(members)/2+1`;
-                                   on success DoProposal ASSIGNS `proposalId = proposalIndex`, DoCommit assigns
-                                   `commitId = proposalId`; a failed DoCommit CLEARS the member's own latch).
+                                   (number = max(proposalIndex, commitId, proposalId) + 1, read once (`round`); majority =
+                                   `len(members)/2+1`; on success DoProposal raises `proposalId` to the round's number only
+                                   if it is lower and the member is not latched, and sets `proposalIndex` back to it
+                                   (repair d2dfddc); DoCommit assigns `commitId = proposalId`; a failed DoCommit clears the
+                                   latch only if the member set it itself, `proposalFromHost` = own host (repair 03cbf03)).
 * `restartMember`                = a new `ArbiterManager` + `ArbiterStore.Load` + `ArbiterManager.Load`
                                    (`commitId` := what `Save` last wrote, `proposalId := commitId`, latch "", proposalIndex 0,
                                    every cached role UNKNOWN, every cached log position zero).
@@ -28,10 +30,16 @@ The network is a list of in-flight messages; any of them can be delivered or los
 request of a phase to finish (reply or error), so a candidate has at most one outstanding message per target.
 The request a candidate sends to itself is the direct call `DoSelfProposal` / `DoSelfCommit` (it cannot be lost).
 
-Outside the model (assumed not to happen during the modelled window): announcements, role LEADER in any table, members
-going offline, `abstianed`, membership changes. Hosts are member indices; `rank` orders the host strings.
+Member tables carry the cached role and the connection status of every entry: an acceptor that knows an ONLINE LEADER
+refuses every proposal (ERR_ROLE / ERR_STATUS), a proposal for an offline host is refused (ERR_OFFLINE), a candidate
+sends nothing to an entry that is not online (the request fails at once) and does not vote without an online majority.
+Outside the model (assumed not to happen during the modelled window): announcements (the `DoAnnouncement()` an acceptor
+fires when it refuses because of a leader has no effect on the voter fields), `manager.leaderMember`, status CHANGES,
+`abstianed`, membership changes, the uninitialised manager (`ownMember == nil`). Hosts are member indices; `rank`
+orders the host strings.
 
-`commits` and `started` are GHOST history variables (what an outside observer writes down); no handler reads them and a
+
+`commits`, `clears` and `started` are GHOST history variables (what an outside observer writes down); no handler reads them and a
 restart does not erase them.
 -/
 namespace Slock.Elect
@@ -76,6 +84,7 @@ def ROLE_UNKNOWN : Nat := 0
 def ROLE_LEADER : Nat := 1
 def ROLE_FOLLOWER : Nat := 2
 def ROLE_ARBITER : Nat := 3
+def STATUS_ONLINE : Nat := 5
 
 structure VoteResp where
   host : Nat
@@ -96,8 +105,10 @@ structure Member where
   ownAof : AofId := AofId.zero    -- replicationManager.currentAofId (durable)
   views : List AofId := []        -- member.aofId of every table entry (own entry included)
   roles : List Nat := []          -- member.role of every table entry (own entry = own role)
+  statuses : List Nat := []       -- member.status of every table entry (5 = ONLINE; own entry is ONLINE)
   -- ArbiterVoter
   pidx : Nat := 0                 -- proposalIndex
+  round : Nat := 0                -- the local `proposalIndex` of the running DoProposal: the number of this round
   cid : Nat := 0                  -- commitId
   pid : Nat := 0                  -- proposalId
   latch : Option Nat := none      -- proposalHost ("" = none)
@@ -114,6 +125,7 @@ structure Member where
   isReject : Bool := false
   -- ghost
   commits : List (Nat × Nat) := []   -- every (number, host) this member accepted a commit for
+  clears : Nat := 0                  -- how often a failed DoCommit of this member released a latch it had set itself
   started : Bool := false
 deriving Repr, Inhabited
 
@@ -147,16 +159,18 @@ def setN : List Nat → Nat → Nat → List Nat
   | _ :: as, 0, x => x :: as
   | a :: as, i + 1, x => a :: setN as i x
 
-/-- the newest cached position among the entries whose cached role is not ARBITER (`GetCurrentAofID`, arbiter branch) -/
-def newestView : List AofId → List Nat → AofId → AofId
-  | v :: vs, r :: rs, acc =>
-    newestView vs rs (if r != ROLE_ARBITER && compareAofId v acc > 0 then v else acc)
-  | _, _, acc => acc
+def Member.online (m : Member) (j : Nat) : Bool := getN m.statuses j == STATUS_ONLINE
+
+/-- the newest cached position among the ONLINE entries whose cached role is not ARBITER (`GetCurrentAofID`, arbiter branch) -/
+def newestView : List AofId → List Nat → List Nat → AofId → AofId
+  | v :: vs, r :: rs, st :: sts, acc =>
+    newestView vs rs sts (if r != ROLE_ARBITER && st == STATUS_ONLINE && compareAofId v acc > 0 then v else acc)
+  | _, _, _, acc => acc
 
 /-- `GetCurrentAofID` of member `self`: returns the id and the member (an arbiter stores the id in its own entry). -/
 def currentAof (self : Nat) (m : Member) : AofId × Member :=
   if m.arbiter != 0 then
-    let a := newestView m.views m.roles AofId.zero
+    let a := newestView m.views m.roles m.statuses AofId.zero
     (a, { m with views := setA m.views self a })
   else (m.ownAof, m)
 
@@ -176,26 +190,38 @@ def handleVote (self : Nat) (m : Member) : VoteResp × Member :=
 inductive PropRes
   | ok (old : Nat)       -- accepted; the reply carries the previous proposalId
   | reject               -- ERR_REJECT / ProposalRejectError: own log is newer
+  | role                 -- ERR_ROLE: the acceptor is the leader itself
+  | status               -- ERR_STATUS: the acceptor knows an online leader
   | aofid                -- ERR_AOFID: a cached member position is newer
   | badHost              -- ERR_HOST
+  | offline              -- ERR_OFFLINE: the proposed host is not online in the acceptor's table
   | propId (n : Nat)     -- ERR_PROPOSALID with the number the acceptor holds
 deriving DecidableEq, Repr, Inhabited
 
-def anyNewer : List AofId → AofId → Bool
-  | [], _ => false
-  | v :: vs, a => compareAofId v a > 0 || anyNewer vs a
+/-- the member loop of the proposal handlers: the first entry that is an online leader (ERR_STATUS) or whose cached log
+position is newer than the proposed one (ERR_AOFID) ends it -/
+def scanMembers : List Nat → List Nat → List AofId → AofId → Option PropRes
+  | r :: rs, st :: sts, v :: vs, a =>
+    if r == ROLE_LEADER && st == STATUS_ONLINE then some .status
+    else if compareAofId v a > 0 then some .aofid
+    else scanMembers rs sts vs a
+  | _, _, _, _ => none
 
 /-- the decision of `commandHandleProposalCommand` / `DoSelfProposal` (no state change) -/
-def classifyProposal (n : Nat) (m : Member) (k host : Nat) (aof : AofId) : PropRes :=
+def classifyProposal (n self : Nat) (m : Member) (k host : Nat) (aof : AofId) : PropRes :=
   if m.arbiter == 0 && compareAofId m.ownAof aof > 0 then .reject
-  else if anyNewer m.views aof then .aofid
-  else if host ≥ n then .badHost
-  else if m.pid ≥ k || m.latch.isSome then .propId m.pid
-  else if m.cid ≥ k then .propId m.cid
-  else .ok m.pid
+  else if getN m.roles self == ROLE_LEADER then .role
+  else match scanMembers m.roles m.statuses m.views aof with
+    | some r => r
+    | none =>
+      if host ≥ n then .badHost
+      else if host != self && !m.online host then .offline
+      else if m.pid ≥ k || m.latch.isSome then .propId m.pid
+      else if m.cid ≥ k then .propId m.cid
+      else .ok m.pid
 
-def handleProposal (n : Nat) (m : Member) (k host : Nat) (aof : AofId) : PropRes × Member :=
-  match classifyProposal n m k host aof with
+def handleProposal (n self : Nat) (m : Member) (k host : Nat) (aof : AofId) : PropRes × Member :=
+  match classifyProposal n self m k host aof with
   | .ok old => (.ok old, { m with pid := k })
   | r => (r, m)
 
@@ -273,18 +299,24 @@ def takeMsg (req : Bool) (c t : Nat) : List Msg → Option (Msg × List Msg)
 
 def targets (n : Nat) : List Nat := List.range n
 
-/-- `DoProposal` up to the requests: the number is max(proposalIndex, commitId, proposalId) + 1 -/
+/-- the members a candidate's `DoRequests` really sends to: itself (a direct call) and the entries that are online -/
+def reachable (n c : Nat) (m : Member) : List Nat := (targets n).filter (fun t => t == c || m.online t)
+
+/-- the requests to the other entries fail at once ("not online") -/
+def unreachableCount (n c : Nat) (m : Member) : Nat := ((targets n).filter (fun t => !(t == c || m.online t))).length
+
+/-- `DoProposal` up to the requests: the number is max(proposalIndex, commitId, proposalId) + 1, read once -/
 def beginProposal (n c : Nat) (m : Member) : Member × List Msg :=
   let i1 := if m.pidx ≤ m.cid then m.cid else m.pidx
   let i2 := if i1 ≤ m.pid then m.pid else i1
   let k := i2 + 1
   let host := m.voteHost.getD 0
-  ({ m with pidx := k, phase := .prop, finished := 0, accepts := 0, isReject := false },
-   (targets n).map (fun t => Msg.propReq c t k host m.voteAof))
+  ({ m with pidx := k, round := k, phase := .prop, finished := unreachableCount n c m, accepts := 0, isReject := false },
+   (reachable n c m).map (fun t => Msg.propReq c t k host m.voteAof))
 
 def beginCommit (n c : Nat) (m : Member) : Member × List Msg :=
-  ({ m with phase := .commit, finished := 0, accepts := 0 },
-   (targets n).map (fun t => Msg.commitReq c t m.pidx (m.voteHost.getD 0)))
+  ({ m with phase := .commit, finished := unreachableCount n c m, accepts := 0 },
+   (reachable n c m).map (fun t => Msg.commitReq c t m.pidx (m.voteHost.getD 0)))
 
 /-- the end of `DoVote`: majority of answers, selection; on success straight into `DoProposal` -/
 def finishVote (n c : Nat) (m : Member) : Member × List Msg :=
@@ -293,16 +325,21 @@ def finishVote (n c : Nat) (m : Member) : Member × List Msg :=
     | none => ({ m with phase := .idle }, [])
     | some r => beginProposal n c { m with voteHost := some r.host, voteAof := r.aof }
 
-/-- the end of `DoProposal`: on success `proposalId = proposalIndex` (an assignment, whatever proposalId holds by now) -/
+/-- the end of `DoProposal`: on success `proposalId` is raised to the round's number only if it is lower and the member
+is not latched (the same conditions under which the proposal handler would accept it), and `proposalIndex` — which the
+ERR_PROPOSALID replies of this round may have raised — is set back to the round's number for `DoCommit` -/
 def finishProposal (n c : Nat) (m : Member) : Member × List Msg :=
   if m.isReject then ({ m with phase := .idle }, [])
   else if m.accepts < voteMajority n then ({ m with phase := .idle }, [])
-  else beginCommit n c { m with pid := m.pidx }
+  else beginCommit n c { m with pid := if m.pid < m.round && m.latch.isNone then m.round else m.pid, pidx := m.round }
 
-/-- the end of `DoCommit`: failure clears the member's own latch (whoever set it); success latches and sets
-`commitId = proposalId` -/
+/-- the end of `DoCommit`: failure releases the latch only if this member set it itself (`proposalFromHost` = own host);
+success latches and sets `commitId = proposalId` -/
 def finishCommit (n c : Nat) (m : Member) : Member × List Msg :=
-  if m.accepts < voteMajority n then ({ m with latch := none, fromHost := none, phase := .idle }, [])
+  if m.accepts < voteMajority n then
+    if m.fromHost = some c then
+      ({ m with latch := none, fromHost := none, phase := .idle, clears := if m.latch.isSome then m.clears + 1 else m.clears }, [])
+    else ({ m with phase := .idle }, [])
   else ({ m with latch := m.voteHost, fromHost := some c, cid := m.pid, phase := .won }, [])
 
 /-- `DoRequests` returns when every request has finished -/
@@ -349,7 +386,8 @@ def phaseOfMsg : Msg → Phase
 def restartMember (m : Member) : Member :=
   { m with
     views := m.views.map (fun _ => AofId.zero), roles := m.roles.map (fun _ => ROLE_UNKNOWN),
-    pidx := 0, cid := m.saved, pid := m.saved, latch := none, fromHost := none,
+    statuses := m.statuses.map (fun _ => STATUS_ONLINE),   -- the harness reconnects every link after a restart
+    pidx := 0, round := 0, cid := m.saved, pid := m.saved, latch := none, fromHost := none,
     voteHost := none, voteAof := AofId.zero,
     phase := .idle, finished := 0, responses := [], accepts := 0, isReject := false }
 
@@ -363,9 +401,13 @@ inductive Event
   | save (m : Nat)
 deriving DecidableEq, Repr, Inhabited
 
-/-- the head of the `StartVote` loop: a member latched on ANOTHER (online) host waits for its announcement -/
-def mayStart (c : Nat) (m : Member) : Bool :=
-  m.phase == .idle && (match m.latch with | some h => h == c | none => true)
+def onlineCount (n : Nat) (m : Member) : Nat := ((targets n).filter (fun t => m.online t)).length
+
+/-- the head of the `StartVote` loop: a member latched on ANOTHER online host waits for its announcement; without an
+online majority nobody votes -/
+def mayStart (n c : Nat) (m : Member) : Bool :=
+  m.phase == .idle && (match m.latch with | some h => h == c || !m.online h | none => true) &&
+    onlineCount n m ≥ voteMajority n
 
 /-- result of one event, for the driver: a short outcome string is derived from this -/
 inductive Outcome
@@ -383,10 +425,10 @@ def step (s : State) (e : Event) : State × Outcome :=
   | .start c =>
     if c < n then
       let m := getM s.members c
-      if mayStart c m then
-        let m' := { m with voteHost := none, voteAof := AofId.zero, phase := .vote, finished := 0, responses := [],
-                           accepts := 0, isReject := false, started := true }
-        ({ members := setM s.members c m', net := s.net ++ (targets n).map (fun t => Msg.voteReq c t) }, .started)
+      if mayStart n c m then
+        let m' := { m with voteHost := none, voteAof := AofId.zero, phase := .vote, finished := unreachableCount n c m,
+                           responses := [], accepts := 0, isReject := false, started := true }
+        ({ members := setM s.members c m', net := s.net ++ (reachable n c m).map (fun t => Msg.voteReq c t) }, .started)
       else (s, .waiting)
     else (s, .none)
   | .deliverReq c t =>
@@ -403,7 +445,7 @@ def step (s : State) (e : Event) : State × Outcome :=
             ({ members := setM s.members c mc, net := rest ++ out }, .vote r)
           else ({ members := setM s.members t mt', net := rest ++ [Msg.voteRep c t r] }, .vote r)
         | .propReq _ _ k host aof =>
-          let (r, mt') := handleProposal n mt k host aof
+          let (r, mt') := handleProposal n t mt k host aof
           if t = c then
             let (mc, out) := recordProposal n c mt' r false
             ({ members := setM s.members c mc, net := rest ++ out }, .prop r)
@@ -486,6 +528,7 @@ def hasCommitMajority (s : State) (k h : Nat) : Bool :=
 
 /-- a cluster of `n` members that has not voted yet -/
 def initMember (n : Nat) (rank weight arbiter : Nat) (aof : AofId) (role : Nat := ROLE_FOLLOWER) : Member :=
-  { rank, weight, arbiter, ownAof := aof, views := List.replicate n AofId.zero, roles := List.replicate n role }
+  { rank, weight, arbiter, ownAof := aof, views := List.replicate n AofId.zero, roles := List.replicate n role,
+    statuses := List.replicate n STATUS_ONLINE }
 
 end Slock.Elect
